@@ -49,6 +49,10 @@ def _case(draw, tier):
         # its variables, which result caches have to tell apart
         from . import c16
         return {"family": "flatten", "flat": draw(c16.strategy(tier))}
+    if chance(draw, 1, 8):
+        # the rule-tree family (generator, builder and reference of C12): selectors answer from result caches of their own
+        from . import c12
+        return {"family": "rule_tree", "tree": draw(c12.strategy(tier))}
     c = draw(query_case(_cfg(tier)))
     # optionally abandon an evaluation after k results before the compared evaluations (in BOTH configurations)
     c["pre_partial"] = draw(st.sampled_from([None, None, None, 1, 1, 2]))
@@ -131,9 +135,24 @@ def _check_flatten(case) -> Outcome:
                    extra={"cache_hits": hc.hits})
 
 
+def _check_rule_tree(case) -> Outcome:
+    """C12's check runs the tree with caching disabled, then enabled, each against its reference: a failure of the cached
+    run (after the uncached run passed) is a difference between the two configurations."""
+    from . import c12
+    out = c12.check(case["tree"])
+    classes = ["family_rule_tree"] + [c for c in out.classes if c.startswith(("shape", "nodes"))][:2]
+    if out.ok or "caching_True" not in out.features:
+        return Outcome(True, nontrivial=out.nontrivial, classes=classes, features=classes)
+    return fail("rule_tree_cached_differs", "rule tree: uncached evaluation agrees with the reference, cached evaluation "
+                                            "does not: " + out.detail, nontrivial=out.nontrivial, classes=classes,
+                features=classes)
+
+
 def check(case) -> Outcome:
     if case.get("family") == "flatten":
         return _check_flatten(case)
+    if case.get("family") == "rule_tree":
+        return _check_rule_tree(case)
     objs = build_entities(case["ents"])
     feats = case_features(case)
     expected, n_sat, n_all = reference_rows(case, objs)
@@ -194,4 +213,7 @@ def render(case):
     if case.get("family") == "flatten":
         from . import c16
         return {"family": "flatten", **c16.render(case["flat"])}
+    if case.get("family") == "rule_tree":
+        from . import c12
+        return {"family": "rule_tree", **c12.render(case["tree"])}
     return render_query(case)
